@@ -164,7 +164,6 @@ package wamp
 
 //@ func RecvTimeout
 //@   requires !isnil(p)
-//@   recvsite Message : [peers-deliver-well-formed-messages] assume !isnil(m) && (is(m, *Hello) ==> m.(*Hello) != nil) && (is(m, *Authenticate) ==> m.(*Authenticate) != nil)
 //@   ensures [message-or-error] isnil(result1) ==> !isnil(result0) && (is(result0, *Hello) ==> result0.(*Hello) != nil) && (is(result0, *Authenticate) ==> result0.(*Authenticate) != nil)
 
 // NormalizeDict goes through reflect; the only fact used is that a value of a
@@ -197,3 +196,8 @@ package wamp
 //@ func DictFlag
 //@   props C04
 //@   requires len(path) >= 1
+
+// Every message put on a channel is a real message: not nil and not a nil
+// pointer wrapped in the interface (checked at every send under verification,
+// relied upon at every receive).
+//@ chaninv Message : wellformed(v)
